@@ -294,6 +294,48 @@ def leftover_files(chk, tmp):
                 chk.fail("create-on-existing-succeeds", f"{cname} on an existing file ({kind}) neither raised nor touched the file", info)
 
 
+def clean_closes(chk, tmp):
+    """'a file that was closed normally opens without such a warning and with complete content', whatever it contains: no cap
+    tensors yet, fewer caps than MPO tensors + 1, nothing at all"""
+    k = 0
+    for variant in ("mpos-only", "empty", "one-cap", "export-without-caps", "export-one-cap"):
+        k += 1
+        fn = os.path.join(tmp, f"clean_{k}.hdf5")
+        nm, nc = {"mpos-only": (2, 0), "empty": (0, 0), "one-cap": (2, 1), "export-without-caps": (2, 0), "export-one-cap": (2, 1)}[variant]
+        if variant.startswith("export"):
+            w = ptm.SimpleProcessTensor(2, dt=0.1)
+        else:
+            w = ptm.FileProcessTensor("write", fn, 2, dt=0.1)
+        for j in range(nm):
+            w.set_mpo_tensor(j, np.ones((1, 1, 4), dtype=complex) * (j + 1))
+        for j in range(nc):
+            w.set_cap_tensor(j, np.ones(1, dtype=complex))
+        if variant.startswith("export"):
+            w.export(fn)
+        else:
+            w.close()
+        for kind in ("file", "simple"):
+            info = {"kind": "clean-close", "content": variant, "import_type": kind}
+            chk.search_cases += 1
+            chk.count("clean_closes")
+            chk.case(info, ("clean-close", variant, kind))
+            try:
+                with warnings.catch_warnings(record=True) as rec:
+                    warnings.simplefilter("always")
+                    back = ptm.import_process_tensor(fn, kind)
+                n_back = len(back)
+                vals_ok = all(np.array_equal(back.get_mpo_tensor(j, transformed=False).reshape(-1)[:1], [j + 1.0]) for j in range(n_back))
+                if kind == "file":
+                    back.close()
+            except Exception as ex:
+                chk.fail("clean-file-unreadable", f"a normally closed file ({variant}) cannot be imported as '{kind}': {ex!r}", info)
+                continue
+            if any("corrupt" in str(r_.message) or "writing" in str(r_.message) for r_ in rec):
+                chk.fail("clean-file-warns", f"a normally closed file ({variant}) opens with the interrupted-writer warning ('{kind}' import)", info)
+            if n_back != nm or not vals_ok:
+                chk.fail("clean-file-incomplete", f"a normally closed file ({variant}) comes back with {n_back} of {nm} MPO tensors", info)
+
+
 def run(chk):
     rng = chk.rng
     thorough = chk.tier == "thorough"
@@ -313,6 +355,7 @@ def run(chk):
             meta.append({"kind": "api-table", "entry": entry})
 
         leftover_files(chk, tmp)
+        clean_closes(chk, tmp)
 
         # (b) crash enumeration on the real writers
         jobs = []
